@@ -21,6 +21,7 @@ CHECK_DEADLOCK FALSE
 SPECIFICATION PSpec
 INVARIANT Fresh
 INVARIANT FreshAfterInvalidate
+INVARIANT NoTornPeek
 INVARIANT Bounded
 INVARIANT ItemsExact
 INVARIANT BytesExact
